@@ -67,6 +67,31 @@ class Dog:
 
 Pet = Annotated[Union[Cat, Dog], discriminator("type")]
 
+@dataclass
+class Animal:
+    n: int = 0
+
+@dataclass
+class ACat(Animal):
+    m: int = 0
+
+@dataclass
+class ADog(Animal):
+    w: int = 0
+
+@dataclass
+class Zoo:
+    a: Animal
+    c: Optional[ACat] = None
+
+@dataclass(init=False)
+class Raw:
+    a: int
+    b: int = 0
+    def __init__(self, a, b=0):
+        self.a = a * 2
+        self.b = b
+
 def lower_name(tp):
     from apischema.type_names import TypeName
     return TypeName(tp.__name__.lower(), tp.__name__.lower()) if isinstance(tp, type) and hasattr(tp, "__name__") else None
@@ -132,6 +157,7 @@ def ops(ns):
     o["order(P)"] = lambda: ns["order"]({"name": ns["order"](-1)})(ns["P"])
     o["validator(P)"] = lambda: ns["validator"](ns["p_check"])
     o["dependent_required(P)"] = lambda: ns["dependent_required"]({"name": ["x_val"]}, owner=ns["P"])
+    o["discriminator(type)(Animal)"] = lambda: ns["discriminator"]("type")(ns["Animal"])
     o["serialized(P)"] = lambda: ns["serialized"](owner=ns["P"])(ns["p_double"])
     return o
 
@@ -215,7 +241,8 @@ class World:
                 pass
 
 
-OBS = ["deserialize(Q)", "serialize(Q)", "deserialization_schema(Q)", "serialization_schema(Q)", "deserialize(R)", "serialize(R)", "deserialize(Tr)", "deserialize(Pet)", "serialize(Pet)"]
+OBS = ["deserialize(Q)", "serialize(Q)", "deserialization_schema(Q)", "serialization_schema(Q)", "deserialize(R)", "serialize(R)", "deserialize(Tr)", "deserialize(Pet)", "serialize(Pet)",
+       "deserialize(Raw)", "deserialize(Zoo)", "serialize(Zoo)", "deserialization_schema(Zoo)", "serialization_schema(Zoo)"]
 
 
 def jobs(prop, tier, seed):
@@ -229,7 +256,7 @@ def jobs(prop, tier, seed):
                 length = 2 if obs in ("deserialize(Q)", "serialize(Q)") else 1
             else:
                 length = 2
-            out.append(dict(harness="C09", pid=f"op{first}", first=first, obs=obs, length=length, opts={}, bounds={}, budget_s=30 if tier == "quick" else 300))
+            out.append(dict(harness="C09", pid=f"op{first}", first=first, obs=obs, length=length, opts={}, bounds={}, budget_s=(150 if length == 2 and obs == "deserialize(Q)" else 30) if tier == "quick" else 300))
     return out
 
 
@@ -264,7 +291,7 @@ class Inst:
 
         ns = self.ns
         kind = self.obs
-        tp = ns["R"] if "(R)" in kind else ns["Tr"] if "(Tr)" in kind else ns["Pet"] if "(Pet)" in kind else ns["Q"]
+        tp = ns["Raw"] if "(Raw)" in kind else ns["Zoo"] if "(Zoo)" in kind else ns["R"] if "(R)" in kind else ns["Tr"] if "(Tr)" in kind else ns["Pet"] if "(Pet)" in kind else ns["Q"]
 
         def compile_():
             try:
@@ -316,6 +343,24 @@ class Inst:
             return d
         if self.obs == "serialize(Pet)":
             return ns["Cat"](ctx.int("m")) if ctx.flag("cat") else ns["Dog"](ctx.int("w"))
+        if self.obs == "deserialize(Raw)":
+            d = {"a": ctx.int("a")}
+            if ctx.flag("b"):
+                d["b"] = ctx.int("b")
+            return d
+        if self.obs == "deserialize(Zoo)":
+            a = {"n": ctx.int("n")}
+            if ctx.flag("type"):
+                a["type"] = ctx.pick(["ACat", "ADog", "Animal"], "t")
+            if ctx.flag("m"):
+                a["m"] = ctx.int("m")
+            d = {"a": a}
+            if ctx.flag("c"):
+                d["c"] = {"m": ctx.int("cm"), "type": "ACat"} if ctx.flag("ctype") else {"m": ctx.int("cm")}
+            return d
+        if self.obs == "serialize(Zoo)":
+            a = ns["ACat"](ctx.int("n"), ctx.int("m")) if ctx.flag("cat") else ns["ADog"](ctx.int("n"), ctx.int("w"))
+            return ns["Zoo"](a, ns["ACat"](0, ctx.int("cm")) if ctx.flag("c") else None)
         if self.obs == "deserialize(Tr)":
             kid = ctx.int("kid") if ctx.flag("int") else {"v": ctx.int("kv"), "kids": [ctx.int("kk")] if ctx.flag("deep") else []}
             return {"v": ctx.int("v"), "kids": [kid] if ctx.flag("kid") else []}
